@@ -88,6 +88,24 @@ def run(ctx):
     R_cover = ctx.rule("C11.extraction-sinks-found", "the extraction command's write sites exist and were analysed (both the plain and the patch-chain branch)", floor=2)
 
     san_fns = sanitiser_fns([cli, mpq])
+    # ... and helpers that build the output path from the base name alone: a function of commands/*.rs every `Path::join` of which
+    # joins a component that derives only from Path::file_name() (nothing of its parameters reaches the join unsanitised)
+    base_fns = set()
+    for f0 in cli.fn_list:
+        if f0.kind == "Closure" or not f0.mir or not f0.mir.get("blocks") or "::commands::" not in f0.path or f0.path in san_fns:
+            continue
+        joins0 = [t0 for _b0, t0 in mirg.iter_calls(f0) if ncallee(t0) == "std::path::Path::join" and len(t0["a"]) >= 2]
+        if not joins0 or not (cli.ty(f0.d.get("output")) or "").count("PathBuf"):
+            continue
+        der0 = Derive(f0, stop=SANITISER_CALLS)
+        clean = True
+        for t0 in joins0:
+            roots0 = der0.roots(t0["a"][1])
+            if any(k0 == "param" for k0, _w0, _d0 in roots0) or any(k0 == "call" and SOURCES.search(w0) for k0, w0, _d0 in roots0) or not any(k0 == "call" and SANITISER_CALLS.search(w0) for k0, w0, _d0 in roots0):
+                clean = False
+        if clean:
+            base_fns.add(f0.path)
+    san_fns = set(san_fns) | base_fns
     stop = re.compile("(" + SANITISER_CALLS.pattern[:-1] + "|" + "|".join(re.escape(s) for s in sorted(san_fns)) + ")$") if san_fns else SANITISER_CALLS
 
     fns = [f for f in cli.fn_list if "::commands::" in f.path or "::utils::" in f.path]
@@ -177,6 +195,9 @@ def run(ctx):
         der = None
         for bb, t in mirg.iter_calls(f):
             c = ncallee(t)
+            if c in san_fns and "security::" not in c and (cli.ty((cli.fns.get(c).d.get("output") if cli.fns.get(c) else None)) or "").count("PathBuf"):
+                ctx.ok(R_join, {"fn": f.path, "line": t["ln"], "sanitised_by": [c.split("::")[-1]], "form": "the output path is built by the sanitiser itself"})
+                continue
             if c != "std::path::Path::join" or len(t["a"]) < 2:
                 continue
             der = der or Derive(f, stop=stop)
